@@ -7,12 +7,17 @@ RT_NOTE = ("Trusted base: TLC 1.8.0; the concretiser harness/internal/abs (abstr
            "evidence file (small-scope). The reference semantics JV.Valid is three-valued: inputs the property does not speak about are never judged.")
 
 CHECKS = {
- "C05": dict(design="7 C05", text="TLC enumerates every combination of presence/kind/order of minimum, maximum, exclusiveMinimum, exclusiveMaximum (boolean and numeric form) and multipleOf for integer and number at 7 position kinds (68.6k units x 13-17 values), checks the implementation-shaped model of NormalizeBounds/genBoundary (spec/Bounds.tla) against the reference semantics on all of them, and the same units are replayed through the real generator, compiled and executed; TLC's trace specification judges every observed verdict. quick replays every bound combination at one seed-chosen position plus a 6% sample, thorough all units.",
-             technique="TLC exhaustive case enumeration + replay into real generated code + TLC trace validation of observed verdicts"),
- "C06": dict(design="7 C06", text="TLC enumerates minLength x maxLength x pattern (6 patterns incl. '%' and backslash escapes) x 7 positions and EVERY string over a 5-character alphabet with 1-4 byte characters up to length 3 (quick) / 4 (thorough); the string-validator model (spec/StrImpl.tla) is checked against the reference (code-point length) and all units are replayed on real generated code; byte-length and maxLength:0 behaviour are excused only where the deviation model predicts exactly the observed verdict.",
-             technique="TLC exhaustive case enumeration + replay into real generated code + TLC trace validation of observed verdicts"),
- "C07": dict(design="7 C07", text="TLC enumerates nesting depth 1..3 x per-level minItems/maxItems options x element kind x 7 positions with uniform and ragged nested-array documents; the model of the per-depth arrayValidator loop (spec/ArrImpl.tla) is checked against the reference and all units are replayed on real generated code. The unchanged tree violates C07 in four recorded ways (known findings); anything else is a violation.",
-             technique="TLC exhaustive case enumeration + replay into real generated code + TLC trace validation of observed verdicts"),
+ "C02": dict(design="7 C02", technique='TLC exhaustive case enumeration + replay into real generated code + TLC trace validation of observed verdicts and decoded values', text="C02's own units (declared properties + additionalProperties true/{}/typed x every subset of 4 extra keys incl. a Go field name, a case variant, the empty key; 5 string formats; integers beyond 2^53; nesting depth 3; definitions named Plain/Raw/Value/J) plus the units of the C03, C04, C08, C09 families and seeded samples of C05-C07 are generated, compiled and executed; TLC's trace spec checks for every document that is valid under the reference semantics that it is accepted, that the reflective dump of the destination holds every declared value in the field bound to that name (defaults for absent ones, exactly the undeclared keys in AdditionalProperties) and that the re-marshalled JSON reproduces every non-empty declared value."),
+ "C03": dict(design="7 C03", technique='TLC exhaustive case enumeration + replay into real generated code + TLC trace validation of observed verdicts', text="TLC enumerates 14 typed position kinds x nullable x 7 contexts (required/optional property, array item depth 1/2, definition, nested property, typed additionalProperties value) with 21 JSON value shapes of every type at the position; the typed-decode model (spec/ObjImpl.tla) is checked against the reference and every unit is replayed on real generated code."),
+ "C04": dict(design="7 C04", technique='TLC exhaustive case enumeration + replay into real generated code + TLC trace validation of observed verdicts', text="TLC enumerates every subset of {a,b,c,n,zz} as `required` of an object with a nullable, a defaulted, a nested-object and an undeclared name, in 9 container contexts (root, property, array item, definition, items of an array definition, 3 allOf shapes, anyOf) with every assignment of absent/present/null to the keys; the struct/required/merge model (spec/ObjImpl.tla) is checked against the reference and every unit is replayed on real generated code."),
+ "C05": dict(design="7 C05", technique='TLC exhaustive case enumeration + replay into real generated code + TLC trace validation of observed verdicts', text="TLC enumerates every combination of presence/kind/order of minimum, maximum, exclusiveMinimum, exclusiveMaximum (boolean and numeric form, integral and non-integral constants) and multipleOf for integer and number at 7 position kinds (68.6k units x 13-18 values), checks the implementation-shaped model of NormalizeBounds/genBoundary (spec/Bounds.tla) against the reference semantics on all of them, and the same units are replayed through the real generator, compiled and executed; TLC's trace specification judges every observed verdict. quick replays every bound combination at one seed-chosen position plus a 6% sample, thorough all units."),
+ "C06": dict(design="7 C06", technique='TLC exhaustive case enumeration + replay into real generated code + TLC trace validation of observed verdicts', text="TLC enumerates minLength x maxLength x pattern (6 patterns incl. '%' and backslash escapes) x 7 positions and EVERY string over a 5-character alphabet with 1-4 byte characters up to length 3 (quick) / 4 (thorough); the string-validator model (spec/StrImpl.tla) is checked against the reference (code-point length) and all units are replayed on real generated code; byte-length and maxLength:0 behaviour are excused only where the deviation model predicts exactly the observed verdict."),
+ "C07": dict(design="7 C07", technique='TLC exhaustive case enumeration + replay into real generated code + TLC trace validation of observed verdicts', text="TLC enumerates nesting depth 1..3 x per-level minItems/maxItems options x element kind x 7 positions with uniform and ragged nested-array documents; the model of the per-depth arrayValidator loop (spec/ArrImpl.tla) is checked against the reference and all units are replayed on real generated code. The unchanged tree violates C07 in four recorded ways (known findings); anything else is a violation."),
+ "C08": dict(design="7 C08", technique='TLC exhaustive case enumeration + replay into real generated code + TLC trace validation of observed verdicts and decoded values', text="TLC enumerates every ordered list of up to 3 distinct atoms of {\"a\",\"b\u00e9% a\",1,2,1.5,true,false,null} conforming to the declared type (7 choices) x 5 uses (2.2k units) with all atoms and 4 non-members as documents; the carrier/DeepEqual model (spec/EnumImpl.tla) is checked against JSON equality; every unit is replayed on real generated code and TLC judges verdict, decoded and re-marshalled value, and the typed string constants read from the emitted source."),
+ "C09": dict(design="7 C09", technique='TLC exhaustive case enumeration + replay into real generated code + TLC trace validation of observed verdicts and decoded values', text="TLC enumerates 22 property kinds x 2 defaults x required flag with the property absent / null / present-other / present-default; every unit is generated, compiled and executed; TLC judges the decoded value (default for absent or null, document value otherwise) and -- because the default literal must have the Go type of the field -- that the emitted package compiles. Seven ways in which the unchanged tree breaks this are recorded findings predicted per unit by the specification."),
+ "C15": dict(design="7 C15", technique="TLC exhaustive case enumeration + replay of both flag settings into real generated code + TLC trace validation (verdicts and Go type read by reflection)", text="TLC enumerates integer schemas whose lower/upper side is absent | minimum | numeric exclusive | minimum + boolean exclusive at landmark+-1 around 0 and the 8/16-bit (quick) plus 32/64-bit (thorough) signed and unsigned limits, with the flag off and on (8.2k / 27k units), checks the model of getMinIntType and the in-place bound removal (spec/IntSize.tla) against the reference, and replays every unit: both programs must give the reference verdict on every landmark value (hence equal accepted sets) and the Go type of the field, read by reflection from the compiled program, must be a narrowest type holding the admitted interval."),
+ "C17": dict(design="7 C17", technique="replay of TLC-enumerated units through UnmarshalJSON and UnmarshalYAML + TLC trace validation of pairwise agreement", text="Units of the C02, C04-C09 families are generated with --extra-imports; every in-scope document (valid, or only required/bound/length/pattern/enum faults) is decoded as JSON, as flow-style YAML and as block-style YAML; TLC judges that verdicts and reflective dumps agree, and excuses a difference only where the as-is model of the JSON path and of the YAML path (JSON-only and YAML-only deviations) predicts exactly the observed verdicts."),
+ "C19": dict(design="7 C19", technique="TLC model checking of the Unmarshal step machine + TLC trace validation of observed call outcomes against its terminal states", text="spec/Unmarshal.tla models one call of a generated method as a step machine (raw decode, before-validators, typed decode into a local copy, after-validators, additional properties, assign); TLC checks Total, AllOrNothing (action property) and Terminates (liveness under fairness) for every configuration and emits the reachable terminal outcomes; ~190k (quick) calls of real generated UnmarshalJSON/UnmarshalYAML methods (all documents of the C02-C09 units, every JSON shape at the root, malformed bytes, zero and previously decoded destinations) are judged by TLC against that table."),
 }
 
 props = [json.loads(l) for l in open('/verif/properties.jsonl')]
